@@ -11,32 +11,36 @@ CLAIMS = {
          "html.EscapeString facts are axioms (escNoLt, escIdentity); tokenizer behaviour and the step from per-node clauses to whole documents are paper steps; taint (no re-evaluation) clauses not built yet."),
  "C02": ("Per-node faithfulness: text exact (Esc(data)), attribute list exact against specAttrs, doctype emitted; all strings, no bound.",
          "Tree-level induction (children in order for the whole tree) and the HTML5 parser round trip are not decided; void elements: see known findings when listed."),
- "C03": ("IsTruthy equals the documented truthiness table for every Go value kind (Val datatype incl. all int widths, float32/64, -0.0).",
-         "named numeric types go through a reflection helper that is trusted; chain walker contracts: see evidence for what is discharged."),
- "C07": ("layout loop: destination writer untouched until the final copy (invariant), depth bounded by maxDepth with a decreases clause (termination of every chain/cycle).",
-         "template loading/filling is unmodelled (havocked); default-layout rule and relative resolution not yet under contract."),
- "C08": ("Stack.EnvMap agrees with Lookup for every name (scopes innermost-first, root struct fields as fallback).",
-         "one inner-loop invariant is listed as not decided (frame lemma for a recursive heap-dependent spec); Fill/loadConfig precedence not yet under contract."),
- "C10": ("Pool discipline: Pop empties a map before Put (loop invariant over the visited set) and only recycles maps that came from the pool (object invariant of Stack, ghost fromPool).",
-         "determinism of attribute order and cache soundness not yet under contract."),
+ "C03": ("IsTruthy equals the documented truthiness table for every Go value kind (Val datatype incl. all int widths, float32/64, -0.0). evalElseIfChain: the returned skip count is in range and either consumes the whole chain (chainEnd, recursive spec over the sibling slice) or points at the matched member; an empty v-if is falsy; HasAttr/GetAttr equal their recursive specs; the evaluate loop index stays in bounds.",
+         "named numeric types go through a reflection helper that is trusted; which branch is evaluated (first truthy) is not decided beyond the skip arithmetic; condition evaluation is havocked except for its frame."),
+ "C04": ("v-for scope discipline: the loop-body closure evalFor$1 pushes one scope and pops it on every return path (error paths included); evalFor/evalVFor/evaluate/evaluateChildren/evaluateNodeAsElement restore the scope list exactly (same maps, same order); the skip count returned by evalVFor stays inside the sibling slice and the evaluate loop index stays in bounds.",
+         "Stack.ForEach (reflection + callback) is a trusted contract; per-item binding values and the v-else-iff-empty clause are not decided; frames of ~40 helper functions are proved, callFunc (reflection) is trusted."),
+ "C05": ("Includes: evalInclude pushes the props scope and the deferred Pop restores the includer's scope list on all return paths (C05.noleak); evalTemplate keeps the scope list; WithTemplate shares stack/seen/slot scope.",
+         "required-attribute check, typed props and shorthand equivalence are not yet under contract; contents of the includer's scopes (as opposed to the scope list) are not yet frozen by contract."),
+ "C06": ("evalSlot: the props scope pushed for a scoped slot template is popped on every return path (scope list restored).",
+         "slot content partition, fallback-iff-absent and per-instance slot scope are not decided."),
+ "C07": ("layout loop: destination writer untouched until the final copy (invariant), depth bounded by maxDepth with a decreases clause (termination of every chain/cycle); resolveLayoutPath returns the relative candidate iff it exists, else layouts/<name>.vuego (exact postcondition over Stat).",
+         "template loading/filling inside the loop is havocked; the default-layout dispatch in Render is not under contract; filepath.Join/Dir and fs.Stat are uninterpreted."),
+ "C08": ("template.Fill: the root scope is a fresh map with front-matter > passed data > config for every key (three map-range loops with visited-set invariants, exact postcondition); Stack.EnvMap agrees with Lookup for every name (scopes innermost-first, root struct fields as fallback).",
+         "one inner-loop invariant of EnvMap is listed as not decided; toMapData (struct data through reflection) is a trusted contract; loadConfig order not under contract."),
+ "C10": ("Pool discipline: Pop empties a map before Put (loop invariant over the visited set) and only recycles maps that came from the pool (object invariant of Stack, ghost fromPool); the pooled strings.Builder is Reset before Put on every path of interpolate (deferred closure); NewNode zeroes every field; clone helpers copy attribute slices.",
+         "determinism of attribute order (map iteration) and cache soundness are not under contract."),
  "C11": ("Zero-annotation panic sweep over every function of the production packages: index/slice bounds, nil dereference, type assertions, nil-map writes, division by zero, explicit panics; layout loop termination (decreases). Discharged obligations form the baseline.",
          "obligations that do not discharge are listed as undecided and are not counted; recursion depth over includes not yet bounded."),
  "C12": ("For every render entry point (Render, RenderFile, RenderString, RenderByte, RenderReader, layout, renderWithoutLayout, Vue.Render/RenderFragment/RenderNodes, renderNodesWithContext, render, renderNode(WithContext)): error without writer failure => nothing written; writer failure => non-nil error; nil error => no new writer failure. Writer failure at every offset is the universally quantified Write stub.",
          "assumes the destination writer is reachable only through explicit Write-capable arguments; evaluation (evaluate/preProcess/postProcess) is havocked; io.Copy/WriteTo/Write stubs assumed."),
  "C14": ("shouldIgnoreAttr == documented directive list; isLiteralAttr; renderAttrs == spec (brackets unwrapped, directives dropped, escaping applied once).",
          "binding evaluation (evalAttributes, class/style merge, v-show) not yet under contract."),
+ "C18": ("OverlayFS.Open returns the file of the first non-nil layer that opens the name (recursive spec firstOpen, loop invariant), fs.ErrNotExist otherwise; nil layers never dereferenced; NewOverlayFS builds [upper]++lower in order.",
+         "fs.FS.Open is a deterministic stub; ReadDir and Glob (sort, fs.DirEntry) are not under contract."),
  "C17": ("Stack as a scope stack: Lookup = innermost binding else root field (recursive spec lookupIdx, loop invariant), Set touches only the top scope, Push/Pop restore the scope list, Pop keeps >= 1 scope, EnvMap agrees with Lookup, Copy is fresh and equal; object invariant len(pooled)==len(stack).",
          "path resolution through reflection (Resolve/resolveStep) is outside the subset: not claimed here; ResolveValue/PopulateStructFields are trusted stubs."),
 }
 NA = {
- "C04": "contracts for evalFor/evalVFor (closure callback through Stack.ForEach) not built yet",
- "C05": "contracts for evalInclude/evalTemplate not built yet",
- "C06": "contracts for slot extraction/evaluation not built yet",
  "C09": "lock/ownership discipline obligations not built yet (no schedule exploration in this technique)",
  "C13": "pipe interpreter contracts not built yet",
  "C15": "cache freshness ghost (file-system epoch) not built yet",
  "C16": "v-once bookkeeping contracts not built yet",
- "C18": "OverlayFS contracts not built yet",
  "C19": "formatter leaf contracts not built yet",
  "C20": "equivalence with an external reference renderer (goldmark) over all documents: no contract on a repository function can express the oracle (DESIGN.md §8)",
 }
